@@ -30,7 +30,9 @@ HEADS = {
     # the header block of the source page: what the moved note inherits
     "plain-values": "# Source page #inh +proj\n# hk::hv\n\n",
     "odd-values": ("# Source page #inh\n# hk::hv [spaced:: two words] [dash:: a-b] [u:: https://ex.com/p/q.html] "
-                   "[w:: C:\\notes\\today\\1] [esc:: a\\\\b] [n:: line\\nbreak] [g:: a\\gb] due::2024-06-01 ref::240101#AB\n\n"),
+                   "[w:: C:\\notes\\today\\1] [esc:: a\\\\b] [n:: line\\nbreak] [g:: a\\gb] due::2024-06-01 ref::240101#AB "
+                   # date- and ZID-shaped values that are NOT a DATE / ZID token of the grammar
+                   "[old:: 1999-12-31] [bad:: 2024-13-45] [zz:: 240305#0I]\n\n"),
     "sections": "# Source page %per\n\n" + H1R + " Sec One @ctx sk::sv\n\n" + H2R + " Sub [deep:: x y\\z]\n\n",
 }
 MARKERS = [None, "x", "~"]
